@@ -18,10 +18,11 @@ From AV Require Import Lib.Base Web.Pool Web.PoolSpec Web.PoolProofs Gen.Consts.
 Definition HCAP : N := HEAD_POOL_CAP.      (* actix-http/src/message.rs: pool.len() < 128 *)
 Definition RCAP : N := REQUEST_POOL_CAP.   (* actix-web/src/request.rs: with_capacity(128) *)
 
-(* The full statement of C11 on the model would be [C11_view_independent_of_history] WITHOUT the
-   premise [full_producer]; it is false (see [C11_refuted_partial_producer]): RequestHead::clear
-   resets only headers and flags, so a head producer that does not write method, uri, version and
-   peer_addr itself hands the previous request's values to the handler. *)
+(* The model follows the repaired RequestHead::clear (commit 319fa1c, F30: a recycled head is
+   reset to RequestHead::default()). Before that repair the statement below needed the premise
+   "the producer writes method, uri, version and peer_addr", and was false without it: a request
+   built with actix_http::test::TestRequest::finish() after two ordinary requests showed the
+   first request's peer address to the handler (corpus/C11.jsonl line 2 is that history). *)
 
 (* After ANY history, what the router, the middleware and the handler can see of the next
    request is exactly what they would see on a worker that has never served a request. *)
@@ -29,18 +30,17 @@ Theorem C11_view_independent_of_history :
   forall (requote : bytes -> option bytes) (root : container)
          (history : list ev) (s : st) (q : reqd),
   run HCAP RCAP requote root st_init history = Val s ->
-  full_producer (q_prod q) = true ->
   view_of (snd (request HCAP requote root s q)) =
   view_of (snd (request HCAP requote root st_init q)).
 Proof. intros. eapply view_independent_of_history; eassumption. Qed.
 
-(* ... and that view is this explicit function of the request and the configuration: every one of
-   the fifteen observable fields (method, uri, version, headers, peer, flags, path uri, requoted
+(* ... and that view is this explicit function ([spec_view], Web/PoolSpec.v) of what the producer
+   conveys of the request and of the configuration, for EVERY producer (h1/h2 transports, both
+   test builders, a bare Request::new()): every one of the fifteen observable fields (method, uri, version, headers, peer, flags, path uri, requoted
    path, skip, segments, resource path, matched flag, app_data stack, conn_data, extensions). *)
 Theorem C11_view_determined_by_request :
   forall requote root history s q,
   run HCAP RCAP requote root st_init history = Val s ->
-  full_producer (q_prod q) = true ->
   view_of (snd (request HCAP requote root s q)) = spec_view requote root q.
 Proof. intros. eapply view_determined; eassumption. Qed.
 
@@ -49,7 +49,6 @@ Proof. intros. eapply view_determined; eassumption. Qed.
 Theorem C11_handler_view_independent :
   forall requote root history s q (acts : list hact),
   run HCAP RCAP requote root st_init history = Val s ->
-  full_producer (q_prod q) = true ->
   view_of (fold_left apply_hact acts (snd (request HCAP requote root s q))) =
   view_of (fold_left apply_hact acts (snd (request HCAP requote root st_init q))).
 Proof. intros. eapply handler_view_independent; eassumption. Qed.
@@ -96,35 +95,20 @@ Theorem C11_no_aliasing :
   NoDup (map o_id (s_rpool s) ++ map (fun e => o_id (l_obj e)) (s_live s)).
 Proof. intros. eapply reachable_no_aliasing; eassumption. Qed.
 
-(* Known finding (class [known_partial_producer]): a request built with
-   actix_http::test::TestRequest::finish() (or Request::new()) after two ordinary requests
-   shows the FIRST request's peer address to the handler. *)
-Theorem C11_refuted_partial_producer :
-  exists (history : list ev) (s : st) (q : reqd),
-    run HCAP RCAP (fun _ => None) [] st_init history = Val s /\
-    known_partial_producer q /\
-    view_of (snd (request HCAP (fun _ => None) [] s q)) <>
-    view_of (snd (request HCAP (fun _ => None) [] st_init q)).
-Proof.
-  pose (q0 := mkReq PTest [71;69;84] [47;97] 11 [] (Some 131073) 0 [] None).
-  pose (q1 := mkReq PTest [71;69;84] [47;98] 11 [] None 0 [] None).
-  exists [ERequest q0; EDrop 0; ERequest q1; EDrop 1].
-  eexists. exists (mkReq PHttpTest [71;69;84] [47;99] 11 [] None 0 [] None).
-  split; [vm_compute; reflexivity|]. split; [reflexivity|].
-  intro H. apply (f_equal v_peer) in H. vm_compute in H. discriminate.
-Qed.
+(* Message::new() hands out RequestHead::default() whatever the head pool contains: a recycled
+   head carries nothing of the request it served before. *)
+Theorem C11_recycled_head_is_default :
+  forall (hpool : list head) (n : N), exists id, fst (head_get hpool n) = head_default id.
+Proof. exact head_get_default. Qed.
 
-Theorem C11_holds_outside_known :
-  forall requote root history s q,
-  ~ known_partial_producer q ->
+(* In particular a bare Request::new() after any history is GET / HTTP/1.1 without headers,
+   peer address or flags, on an object with only the root container. *)
+Theorem C11_raw_request_is_default :
+  forall requote root history s (exts : container),
   run HCAP RCAP requote root st_init history = Val s ->
-  view_of (snd (request HCAP requote root s q)) =
-  view_of (snd (request HCAP requote root st_init q)).
-Proof.
-  intros requote root history s q Hk H. eapply view_independent_of_history; [exact H|].
-  unfold known_partial_producer in Hk. destruct (full_producer (q_prod q)); [reflexivity|].
-  exfalso; apply Hk; reflexivity.
-Qed.
+  view_of (snd (request HCAP requote root s (mkReq PRaw [] [] 0 [] None 0 exts None))) =
+  mkView [71; 69; 84] [47] 11 [] None 0 [47] (requote [47]) 0 [] [] false [root] None exts.
+Proof. intros. erewrite view_determined by eassumption. reflexivity. Qed.
 
 (* Non-vacuity: request 0 is routed into a scope (captures, skip, resource ids, scoped data),
    gets extensions and conn_data, is cloned and dropped twice; request 1 then really receives the
@@ -140,4 +124,17 @@ Example C11_example :
             lenN (s_rpool s) = 1 /\ s_nreq s = 1 /\
             o_id (snd (request HCAP (fun _ => None) root s qb)) = 0 /\
             view_of (snd (request HCAP (fun _ => None) root s qb)) = spec_view (fun _ => None) root qb.
+Proof. eexists. split; [vm_compute; reflexivity|]. vm_compute. repeat split. Qed.
+
+(* Non-vacuity for the partial producers: the history that used to leak. After a request with
+   peer 127.0.0.2:1 and a second one, the head pool holds the first head; a request built by
+   actix_http's test builder receives that very allocation (h_id = 0) and sees no peer. *)
+Example C11_example_recycled_head :
+  let q0 := mkReq PTest [71;69;84] [47;97] 11 [] (Some 131073) 0 [] None in
+  let q1 := mkReq PTest [71;69;84] [47;98] 11 [] None 0 [] None in
+  let q2 := mkReq PHttpTest [71;69;84] [47;99] 11 [] None 0 [] None in
+  exists s, run HCAP RCAP (fun _ => None) [] st_init [ERequest q0; EDrop 0; ERequest q1; EDrop 1] = Val s /\
+            map h_id (s_hpool s) = [0] /\ map h_peer (s_hpool s) = [Some 131073] /\
+            h_id (o_head (snd (request HCAP (fun _ => None) [] s q2))) = 0 /\
+            v_peer (view_of (snd (request HCAP (fun _ => None) [] s q2))) = None.
 Proof. eexists. split; [vm_compute; reflexivity|]. vm_compute. repeat split. Qed.
